@@ -205,15 +205,16 @@ Fixpoint mix (p q : path) (a b : content) : list astep :=
 Definition open_tar (o : nat) (d : string) (dath : string) : list astep :=
   [Rebuild (PMember d MDat dath) (PMember d MTar dath) (PTmpFile d o)].
 
-(* cachePackage: control, signature (if any), data, tar — in this order *)
+(* cachePackage until fix 6729dee: control, signature (if any), data, tar — in this order *)
 Definition pkg_advs (o : nat) (d : string) (a : apk) : list (path * path) :=
   [(PTmpMem d o MCtl, PMember d MCtl (a_ctlh a))] ++
   (match a_sig a with Some _ => [(PTmpMem d o MSig, PMember d MSig (a_ctlh a))] | None => [] end) ++
   [(PTmpMem d o MDat, PMember d MDat (a_dath a));
    (PTmpMem d o MTar, PMember d MTar (a_dath a))].
 
-(* the repair proposed for findings C19-F2/F3 (fixes/C19-F2.patch, NOT applied):
-   the control section — the name a lookup starts from — is advertised LAST *)
+(* cachePackage since fix 6729dee (fixes/C19-F2.patch, the repair of findings C19-F2/F3):
+   the control section — the name a lookup starts from — is advertised LAST.  Which of the
+   two orders the source of a run has is read by goextract (ctl_last_of_calls). *)
 Definition pkg_advs_ctl_last (o : nat) (d : string) (a : apk) : list (path * path) :=
   (match a_sig a with Some _ => [(PTmpMem d o MSig, PMember d MSig (a_ctlh a))] | None => [] end) ++
   [(PTmpMem d o MDat, PMember d MDat (a_dath a));
@@ -230,7 +231,7 @@ Definition populate_package_ord (ctl_last : bool) (o : nat) (d : string) (a : ap
   write_file (t MCtl) (a_ctl a) ++
   (Create (t MDat) :: Create (t MTar) :: mix (t MDat) (t MTar) (a_dat a) (a_tar a) ++
    Close (t MTar) :: Close (t MDat) :: adv_steps (pkg_advs_ord ctl_last o d a) ++ open_tar o d (a_dath a)).
-(* the code today: control section first *)
+(* the order before 6729dee: control section first (kept: the refutations C19-F2/F3 are about it) *)
 Definition populate_package := populate_package_ord false.
 
 
